@@ -84,6 +84,8 @@ for _p in ("C04", "C05"):
     PROPS[_p]["domains"] = PROPS[_p]["domains"] + [{"name": "hlp", "n_quick": 600, "n_thorough": 15000}]
 PROPS["C05"]["lean_modules"] = ["SMD.Properties.C05", "SMD.Properties.C04Exact"]
 PROPS["C19"]["lean_modules"] = ["SMD.Properties.C19", "SMD.Properties.FindingWitnesses"]
+for _p in ("C11", "C12", "C13", "C14"):
+    PROPS[_p]["domains"] = PROPS[_p]["domains"] + [{"name": "typx", "n_quick": 20000, "n_thorough": 250000}]
 PROPS["C13"]["domains"].append({"name": "sch", "n_quick": 150, "n_thorough": 3000})
 PROPS["C19"]["domains"].append({"name": "flt", "n_quick": 1500, "n_thorough": 30000})
 PROPS["C20"] = {
